@@ -158,7 +158,7 @@ def expected_calls(script):
     return out
 
 
-def run_public(case):
+def run_public(case, clauses=None):
     cfg = Cfg.from_desc(case["cfg"])
     agent = UsmAgent(cfg, CLOCKS[case["clock"]], lose_first=case.get("lose_first", False))
     script = case["script"]
@@ -219,7 +219,15 @@ def run_public(case):
         raise drivers.MachineryError("agent error %s" % errs[:2])
     if got_eid.kind != "ok" or got_eid.value != cfg.engine_id:
         problems.append(("usm", "get_engine_id() = %r, agent is %s" % (got_eid.brief(), cfg.engine_id.hex())))
-    # judge the captured request sequence
+    problems += judge_captured(cfg, agent, script, case["driver"], clauses or CLAUSES)
+    return problems, len(agent.captured)
+
+
+def judge_captured(cfg, agent, script, driver, clauses=None):
+    clauses = clauses or CLAUSES
+    """Judge the request sequence one agent captured from one session against the reference USM session model."""
+    case = {"driver": driver}
+    problems = []
     model = SessionModel(cfg)
     anon = Cfg("v3", user="", engine_id=cfg.engine_id)
     calls = expected_calls(script)
@@ -229,7 +237,7 @@ def run_public(case):
         if cfg.discover and not model.engine_id:
             model.no_keys_yet = True
             model.user = b""
-            req, probs = check_request(anon, Call("refresh", []), data, model, CLAUSES)
+            req, probs = check_request(anon, Call("refresh", []), data, model, clauses)
             problems += [(c, t + " [discovery probe via %s client]" % case["driver"]) for c, t in probs]
         else:
             model.no_keys_yet = False
@@ -244,20 +252,67 @@ def run_public(case):
             if call is None:
                 problems.append(("usm", "unexpected extra request #%d" % i))
                 continue
-            req, probs = check_request(cfg, call, data, model, CLAUSES)
+            req, probs = check_request(cfg, call, data, model, clauses)
             problems += [(c, t + " [request %d (%s) via %s client, %s]" % (i, call.op, case["driver"], cfg.name)) for c, t in probs]
         clk = agent.sent_clock[i] if i < len(agent.sent_clock) else None
         if clk is not None:
             model.accept(cfg.engine_id, clk[0], clk[1])
     if calls:
         problems.append(("usm", "%d API request(s) never reached the agent" % len(calls)))
-    return problems, len(agent.captured)
+    return problems
+
+
+def run_shared(case, clauses=None):
+    """One User object handed to several sessions (one after another) towards agents with different engine ids."""
+    base = Cfg.from_desc(case["cfg"])
+    eids = [bytes([0x80, 0, 0x1F, 0x88, 4]) + b"agent-%d" % i for i in range(2)]
+    user = base.make_user()
+    problems = []
+    total = 0
+    for turn, which in enumerate(case["order"]):
+        d = dict(case["cfg"])
+        d["engine_id"] = eids[which].hex()
+        cfg = Cfg.from_desc(d)
+        agent = UsmAgent(cfg, CLOCKS[0])
+        script = case["script"]
+        if case["driver"] == "sync":
+            w = drivers.SyncWorld(cfg, agent, timeout=4.0, max_repetitions=4, user=user)
+            try:
+                s = w.session
+                o = drivers.call(s.__enter__)
+                if o.kind != "ok":
+                    problems.append(("usm", "session entry failed: %r" % (o.brief(),)))
+                for op in script:
+                    o = drivers.call(s.get, rb.oid_str(SYS)) if op == "get" else drivers.call(s.refresh)
+                    if o.kind != "ok":
+                        problems.append(("usm", "%s failed on turn %d: %r" % (op, turn, o.brief())))
+                errs = w.errors
+            finally:
+                w.close()
+        else:
+
+            async def client(s):
+                await s.__aenter__()
+                for op in script:
+                    if op == "get":
+                        await s.get(rb.oid_str(SYS))
+                    else:
+                        await s.refresh()
+
+            o, reqs, errs = drivers.run_async(cfg, agent, client, timeout=4.0, max_repetitions=4, user=user)
+            if o.kind != "ok":
+                problems.append(("usm", "async script failed on turn %d: %r" % (turn, o.brief())))
+        if errs:
+            raise drivers.MachineryError("agent error %s" % errs[:2])
+        problems += [(c, t + " [turn %d, agent %d, shared User]" % (turn, which)) for c, t in judge_captured(cfg, agent, script, case["driver"], clauses or CLAUSES)]
+        total += len(agent.captured)
+    return problems, total
 
 
 def work_public(chunk):
     res = common.Result()
     for case in chunk:
-        probs, n = run_public(case)
+        probs, n = run_shared(case) if "order" in case else run_public(case)
         res.count("cases")
         res.count("datagrams", n)
         res.count("api_calls", len(case["script"]) + 1)
@@ -266,7 +321,7 @@ def work_public(chunk):
         for c, t in probs:
             res.violation("public/%s/%s: %s" % (case["driver"], c, histcheck.classify(t)), t, case)
         if len(res["samples"]) < 1:
-            res.sample({"public": case["driver"], "cfg": Cfg.from_desc(case["cfg"]).name, "script": case["script"], "clock": CLOCKS[case["clock"]], "requests_seen": n})
+            res.sample({"public": case["driver"], "cfg": Cfg.from_desc(case["cfg"]).name, "script": case["script"], "clock": CLOCKS[case.get("clock", 0)], "requests_seen": n})
     return res
 
 
@@ -288,13 +343,21 @@ def gen_public(tier):
         for a, p in ((1, 0), (2, 2)):
             cfg = Cfg("v3", auth=a, priv=p, discover=True)
             yield {"driver": driver, "cfg": cfg.describe(), "clock": 1, "script": ["get", "get"], "lose_first": True}
+        # one User object shared by sessions to agents with different engine ids
+        for (a, p), (kt, pkt) in itertools.product(((2, 0), (1, 1), (2, 2)), ((0, 0), (1, 1), (0, 1), (1, 0))):
+            if not p and kt != pkt:
+                continue
+            for disc in (True, False):
+                cfg = Cfg("v3", auth=a, priv=p, key_type=kt, priv_key_type=pkt, discover=disc)
+                for order in ([0, 1, 0], [1, 1, 0]) if thorough else ([0, 1, 0],):
+                    yield {"driver": driver, "cfg": cfg.describe(), "order": order, "script": ["get", "refresh", "get"]}
 
 
 def replay(case):
     common.prepare_stage()
     if "history" in case:
         return histcheck.replay(case, CLAUSES)
-    probs, n = run_public(case)
+    probs, n = run_shared(case) if "order" in case else run_public(case)
     return {"problems": probs, "requests": n}
 
 
@@ -304,7 +367,7 @@ def run(tier):
     rec.rule = (
         "(a) raw sockets: all step sequences to depth %d over {get, get_many, getbulk, refresh, replies with 5 clock values (forwards, backwards, 2^31-1, 0), Report, foreign engine id "
         "(response / Report), wrong user / msgID / request-id, time-out} for K7 x {engine id given, discovered}; discovery variants (clean, stray Report first, lost probe) x 9 key-type pairs x "
-        "engine-id lengths; (b) sync and async public clients: context-manager entry + scripts x 3 agent clock sequences (incl. reboot) x K7 x key types x {given, discovered}, lost first probe. "
+        "engine-id lengths; (b) sync and async public clients: context-manager entry + scripts x 3 agent clock sequences (incl. reboot) x K7 x key types x {given, discovered}, lost first probe; one User object shared by consecutive sessions to agents with different engine ids. "
         "evaluations = requests judged against the reference USM session model." % (4 if tier == "thorough" else 3)
     )
     rec.assume(
